@@ -19,6 +19,9 @@ type PG struct {
 	R       *Rng
 	Hist    map[string]int
 	counter int
+	// CancelOdds > 0: one expression in CancelOdds is preceded by (cancel!), the harness builtin
+	// that cancels the context of the running evaluation (C07)
+	CancelOdds int
 }
 
 func NewPG(r *Rng) *PG { return &PG{R: r, Hist: map[string]int{}} }
@@ -113,6 +116,10 @@ func (g *PG) ListExpr(depth int, sc scope) types.MalType {
 
 // Expr produces an arbitrary expression.
 func (g *PG) Expr(depth int, sc scope) types.MalType {
+	if g.CancelOdds > 0 && depth > 0 && g.R.Intn(g.CancelOdds) == 0 {
+		g.tag("cancel!")
+		return Call("do", Call("cancel!"), g.Expr(depth-1, sc))
+	}
 	if depth <= 0 {
 		if len(sc.vars) > 0 && g.R.Bool() {
 			return S(g.R.Pick(sc.vars))
